@@ -240,6 +240,9 @@ func (vc *FuncVC) loadAt(st *State, p PtrVal) Value {
 	if s != "" {
 		v := vc.loadLeaf(st, p, s)
 		vc.assumeTyped(st, v, p.T)
+		for _, fi := range vc.fieldInvsFor(leafName(p)) {
+			st.assume(vc.fieldInvTerm(st, fi, v, p.T))
+		}
 		return v
 	}
 	switch u := p.T.Underlying().(type) {
@@ -286,6 +289,10 @@ func (vc *FuncVC) store(st *State, ptr Value, v Value, t types.Type) {
 func (vc *FuncVC) storeAt(st *State, p PtrVal, v Value) {
 	switch x := v.(type) {
 	case Term:
+		for _, fi := range vc.fieldInvsFor(leafName(p)) {
+			g := vc.fieldInvTerm(st, fi, x, p.T)
+			vc.emit(st, vc.uniqueName("fieldinv."+shortName(leafName(p))), "safe", fi.C.Tags, g, "field invariant holds for the stored value: "+fi.C.Src, vc.fn.Pos())
+		}
 		vc.storeLeaf(st, p, x)
 	case PtrVal:
 		vc.storeLeaf(st, p, vc.ptrTerm(x))
@@ -412,4 +419,27 @@ func (vc *FuncVC) allocate(st *State, hint string) Term {
 	st.alloc = na
 	vc.freshRefs[r.S] = true
 	return r
+}
+
+// fieldInvsFor returns the field invariants declared for a heap (resolved lazily, once).
+func (vc *FuncVC) fieldInvsFor(heap string) []*FieldInv {
+	if vc.fieldInvs == nil {
+		vc.fieldInvs = map[string][]*FieldInv{}
+		for _, fi := range vc.w.specs.FieldInvs {
+			func() {
+				defer func() { recover() }()
+				name, _ := vc.resolveHeap(fi.Heap, vc.w.typPkgs[fi.Pkg])
+				vc.fieldInvs[name] = append(vc.fieldInvs[name], fi)
+			}()
+		}
+	}
+	return vc.fieldInvs[heap]
+}
+
+func (vc *FuncVC) fieldInvTerm(st *State, fi *FieldInv, v Term, t types.Type) Term {
+	env := &Env{vc: vc, st: st, vars: map[string]TV{"$v": {T: v, Go: t}}, pkg: vc.w.typPkgs[fi.Pkg]}
+	if env.pkg == nil {
+		env.pkg = vc.fn.Pkg.Pkg
+	}
+	return env.asBool(env.tr(fi.C.E))
 }
